@@ -5,7 +5,7 @@ from concurrent.futures import ThreadPoolExecutor
 ROOT = os.path.dirname(os.path.dirname(os.path.abspath(__file__)))
 COQ = os.path.join(ROOT, 'coq')
 QFLAGS = ['-Q', 'theories', 'QSC', '-Q', 'gen', 'QSCGen', '-Q', 'gprops', 'QSCGProps', '-Q', 'props', 'QSCProps']
-THEORIES = ['Expr', 'Equiv', 'Dim', 'Sign', 'Shift', 'Replicate', 'Shallow', 'Pipeline', 'Series', 'DiffMat', 'Quadrant', 'Newton', 'Bracket', 'RootSelect', 'ObjModel', 'Effects']
+THEORIES = ['Expr', 'Equiv', 'Dim', 'Sign', 'Shift', 'Replicate', 'Shallow', 'Pipeline', 'Series', 'DiffMat', 'Quadrant', 'Newton', 'Bracket', 'RootSelect', 'ObjModel', 'Effects', 'TrigSum', 'VmecEmit', 'DiffKernel']
 FORBIDDEN = re.compile(r'\b(Admitted|admit|Axiom|Axioms|Parameter|Parameters|Conjecture|Hypothesis\s|Variable\s)|Unset\s+Guard|bypass_check|type-in-type|impredicative-set|Admit\s+Obligations')
 ALLOWED_AXIOMS = {
     'ClassicalDedekindReals.sig_not_dec', 'ClassicalDedekindReals.sig_forall_dec',
@@ -177,3 +177,27 @@ def grep_gate():
                         continue
                     bad.append('%s/%s: %s' % (d, f, w))
     return bad
+
+
+def modname(vfile):
+    d, f = vfile.split('/', 1)
+    return {'theories': 'QSC', 'gen': 'QSCGen', 'gprops': 'QSCGProps', 'props': 'QSCProps'}[d] + '.' + f[:-2]
+
+
+def coqchk(vfiles, timeout=3000):
+    """independent re-check of compiled obligations and everything they depend on; returns (ok, axioms, tail of output)"""
+    mods = [modname(f) for f in vfiles]
+    t = time.time()
+    try:
+        p = subprocess.run(['coqchk', '-silent', '-o'] + QFLAGS + mods, cwd=COQ, capture_output=True, text=True, timeout=timeout)
+    except subprocess.TimeoutExpired:
+        return False, set(), 'coqchk TIMEOUT', time.time() - t
+    out = p.stdout + p.stderr
+    axioms = set()
+    m = re.search(r'\* Axioms:(.*?)(?:\n\* |\Z)', out, flags=re.S)
+    if m:
+        for ln in m.group(1).splitlines():
+            ln = ln.strip()
+            if ln and ln != '<none>':
+                axioms.add(ln)
+    return p.returncode == 0, axioms, out[-1500:], time.time() - t
